@@ -127,7 +127,7 @@ fn exec_a(a_ops: &[Op], b_ops: &[Op], render: bool) -> RunOutput {
     for e in &w.obs.borrow().events {
         h.str(&format!("{e:?}"));
     }
-    let out = RunOutput {
+    let out = RunOutput { blocked: false,
         steps: w.sim.steps,
         fingerprints: std::mem::take(&mut ck.fps),
         outcome: h.0,
@@ -408,7 +408,7 @@ fn exec_b(seq: &[Cyc], render: bool) -> RunOutput {
     for m in &b.raw.got {
         h.str(&format!("{m:?}"));
     }
-    let out = RunOutput {
+    let out = RunOutput { blocked: false,
         steps: b.w.sim.steps,
         fingerprints: std::mem::take(&mut b.fps),
         outcome: h.0,
